@@ -222,10 +222,10 @@ class CoqEval:
         body = m.group(1).replace('""', '"')
         body = re.sub(r"\n\s*", lambda mm: mm.group(0) if False else mm.group(0), body)
         res = []
-        for rec in body.split("\x1e") if "\x1e" in body else body.split("@@@"):
+        for rec in body.split("|~|"):
             if not rec.strip():
                 continue
-            idx, _, val = rec.partition(":::")
+            idx, _, val = rec.partition("~:~")
             res.append((base + int(idx.strip()), val))
         return res
 
